@@ -459,6 +459,11 @@ package leveldb
 //@     assert [C04,C07:manifest-durable-before-current] calls("(*Writer).Flush") > old(calls("(*Writer).Flush")) && ((s.o.Options != nil && s.o.Options.NoSync) || calls("storage.Syncer.Sync") > old(calls("storage.Syncer.Sync")))
 //@   at before call storage.Storage.Remove#1
 //@     assert [C04,C07:current-switched-before-old-manifest-removed] err == nil && calls("storage.Storage.SetMeta") > old(calls("storage.Storage.SetMeta"))
+// C07: the snapshot record lists every table of the version exactly once - the version's tables are added to a
+// record that holds no table yet. (The caller's record is what seeds the file reference counts after this commit: a
+// table listed twice is counted twice and is never removed when a compaction drops it; F20.)
+//@   at before call (*version).fillRecord#1
+//@     assert [C07:the-snapshot-record-lists-each-table-of-the-version-once] len(rec.addedTables) == 0
 //@   ensures [C04,C08:no-switch-no-change] calls("storage.Storage.SetMeta") == old(calls("storage.Storage.SetMeta")) ==> (err != nil && s.manifest == old(s.manifest) && s.manifestWriter == old(s.manifestWriter) && s.manifestFd.Num == old(s.manifestFd.Num) && s.stSeqNum == old(s.stSeqNum) && s.stJournalNum == old(s.stJournalNum))
 
 // C08 / C11: once the pointer names the new manifest the commit has taken effect - the record is what the next open
@@ -1541,7 +1546,7 @@ package leveldb
 // C07: the janitor that runs at open removes a manifest or journal only if it is older than the live one (the
 // frozen journal counts as live while it exists). Table files are removed only if the live version does not list
 // them: that part goes through a Go map, which the verifier does not model - not proved.
-//@ spec func stale(db ref, fd ref) bool = (fd.Type == storage.TypeManifest && fd.Num < db.s.manifestFd.Num) || (fd.Type == storage.TypeJournal && ((db.frozenJournalFd.Type != 0 || db.frozenJournalFd.Num != 0) ? fd.Num < db.frozenJournalFd.Num : fd.Num < db.journalFd.Num)) || fd.Type == storage.TypeTable || fd.Type == storage.TypeTemp
+//@ spec func stale(db ref, fd ref) bool = (fd.Type == storage.TypeManifest && fd.Num != db.s.manifestFd.Num) || (fd.Type == storage.TypeJournal && ((db.frozenJournalFd.Type != 0 || db.frozenJournalFd.Num != 0) ? fd.Num < db.frozenJournalFd.Num : fd.Num < db.journalFd.Num)) || fd.Type == storage.TypeTable || fd.Type == storage.TypeTemp
 //@ func (*DB).checkAndCleanFiles
 //@   props C07
 //@   safety off
@@ -1553,10 +1558,12 @@ package leveldb
 //@     assert [C07:only-stale-files-are-removed] stale(db, fd)
 // ... and the converse for the files whose fate does not go through the Go map: a manifest or journal older than the
 // live one, and a temporary file (left by an interrupted table rebuild of Recover; no running DB owns one), is never
-// kept (F13: temporary files used to be kept for ever).
+// kept (F13: temporary files used to be kept for ever). Any manifest but the live one is stale, also one with a higher
+// number - the leftover of a rotation that crashed before the pointer was switched (F21); the janitor runs once,
+// inside Open, after this run's manifest exists and with the storage locked.
 //@   at before stmt if !keep
 //@     assert [C07:a-temporary-file-is-never-kept] fd.Type == storage.TypeTemp ==> !keep
-//@     assert [C07:an-old-manifest-or-journal-is-never-kept] (fd.Type != storage.TypeTable && fd.Type != storage.TypeTemp && stale(db, fd)) ==> !keep
+//@     assert [C07:no-manifest-but-the-live-one-and-no-old-journal-is-kept] (fd.Type != storage.TypeTable && fd.Type != storage.TypeTemp && stale(db, fd)) ==> !keep
 
 // ---------------------------------------------------------------------------
 // C01: the lookup rule of version.get, stated on its two callbacks (function literals verified as units; the
